@@ -32,7 +32,7 @@ Proof. exact inst_types_ok. Qed.
 Print Assumptions C03_schema_names_distinct.
 
 (* every field the writer can emit for a type reachable from the document body has a reader case, except the
-   listed ones (known findings: structured document tags and formula paragraphs) *)
+   listed ones (known finding: formula paragraphs) *)
 Theorem C03_uncovered_is : I_uncovered = expected_uncovered.
 Proof. exact inst_uncovered. Qed.
 Print Assumptions C03_uncovered_is.
@@ -42,10 +42,22 @@ Theorem C03_reachable_covered_or_known :
 Proof. exact inst_reachable_split. Qed.
 Print Assumptions C03_reachable_covered_or_known.
 
+(* which element types come back from a heterogeneous list, per owner of the list: the body, and the content of a
+   structured document tag (which may also hold text runs) *)
 Theorem C03_body_elements_read_back :
-  filter ok_root w_roots = ["BookmarkEnd"; "BookmarkStart"; "Paragraph"; "SectionProperties"; "Table"].
+  filter (ok_root "Body") ("Run" :: w_roots) = ["BookmarkEnd"; "BookmarkStart"; "Paragraph"; "SDT"; "SectionProperties"; "Table"]
+  /\ filter (ok_root "SDTContent") ("Run" :: w_roots) = ["Run"; "BookmarkEnd"; "BookmarkStart"; "Paragraph"; "SDT"; "SectionProperties"; "Table"].
 Proof. exact inst_roots. Qed.
 Print Assumptions C03_body_elements_read_back.
+
+(* the model's assumption about the reader of a tag's content is what the walker table of the source says *)
+Theorem C03_sdt_content_dispatch :
+  match Walk.find_walker Walkers.walkers "parseSDTContent" with
+  | Some w => (map (fun c => fst (fst c)) (Walk.w_cases w), Walk.h_kind (Walk.w_def w)) = (["r"], Walk.HSub "parseBodySubElement")
+  | None => False
+  end.
+Proof. exact sdt_content_dispatch. Qed.
+Print Assumptions C03_sdt_content_dispatch.
 
 (* with the tables of the current source: one cycle, and any number of further cycles, yield erase d *)
 Theorem C03_cycle_stable :
@@ -72,11 +84,12 @@ Theorem C03_example : I_conforms ex_doc = true /\ I_uses_only ex_doc = true /\ I
 Proof. exact ex_doc_premises. Qed.
 Print Assumptions C03_example.
 
-(* the full statement (every conforming value comes back) is false of the current source: known findings *)
-Theorem C03_refuted_sdt : exists d, I_conforms d = true /\ I_read (d_ty d) (I_write "body" d) <> d.
-Proof. exists ex_sdt. exact sdt_dropped. Qed.
-Print Assumptions C03_refuted_sdt.
+(* a generated table of contents (structured document tag with nested tag, bookmarks and text runs) meets them too *)
+Theorem C03_example_sdt : I_conforms ex_sdt = true /\ I_uses_only ex_sdt = true /\ I_cycles "body" 2 ex_sdt = ex_sdt.
+Proof. exact ex_sdt_premises. Qed.
+Print Assumptions C03_example_sdt.
 
+(* the full statement (every conforming value comes back) is false of the current source: known finding *)
 Theorem C03_refuted_math : exists d, I_read (d_ty d) (I_write "body" d) <> d.
 Proof. exists ex_math. exact math_dropped. Qed.
 Print Assumptions C03_refuted_math.
